@@ -144,6 +144,7 @@ def codecInfo (name : PStr) : CodecInfo :=
 inductive Codec
   | table (t : List (Option Nat))
   | utf8
+  deriving DecidableEq
 
 /-- Codec of a spelling CPython accepts; `none` = not a codec, or one the model does not decode. -/
 def codecOf (name : PStr) : Option Codec :=
@@ -365,6 +366,24 @@ def unescapeRef (s : PStr) : Option Nat :=
         | _ => none
     | _ => none
   | _ => none
+
+/-- Un-escape every `&…;` reference in a string: a state machine whose `pending` holds the text since an
+    open `&`; a `;` closes it (replaced by what `unescapeRef` says, kept literally if that is no reference),
+    another `&` or the end of the string flushes it literally.  On the strings the smart-quote conversion
+    produces from `&`-free input this is what `html.unescape` does (compared by the harness). -/
+def unescapeGo : Option PStr → PStr → PStr
+  | none, [] => []
+  | some buf, [] => buf
+  | none, c :: rest => if c = 38 then unescapeGo (some [38]) rest else c :: unescapeGo none rest
+  | some buf, c :: rest =>
+    if c = 59 then
+      match unescapeRef (buf ++ [59]) with
+      | some x => x :: unescapeGo none rest
+      | none => buf ++ 59 :: unescapeGo none rest
+    else if c = 38 then buf ++ unescapeGo (some [38]) rest
+    else unescapeGo (some (buf ++ [c])) rest
+
+def unescapeAll (s : PStr) : PStr := unescapeGo none s
 
 /-! ## detwingle -/
 
